@@ -12,6 +12,7 @@ theorem effTw_eq (c : Crs) (sr : SR XR) : effTw c sr = { sr with datumParams := 
   unfold effTw dParams
   cases c.datum <;> cases c.towgs <;> rfl
 
+attribute [local irreducible] ellpsOf datumCodeOf unitNameOf quoted in
 /-- the raw state of a projected definition, field by field -/
 theorem wktRaw_proj (c : Crs) (st : Style) (hk : c.kind ≠ .geog) : wktRaw c st =
     { (newSR : SR XR) with
@@ -27,6 +28,7 @@ theorem wktRaw_proj (c : Crs) (st : Style) (hk : c.kind ≠ .geog) : wktRaw c st
   simp only [Function.comp, wOf, Bool.false_eq_true, if_false, id, effTw_eq]
   rfl
 
+attribute [local irreducible] ellpsOf datumCodeOf unitNameOf quoted in
 theorem wktRaw_geog (c : Crs) (st : Style) (hk : c.kind = .geog) : wktRaw c st =
     { (newSR : SR XR) with
       name := s "longlat", units := unitNameOf (degUnitName st), toMeter := Num.mul (some degDec.toRat) (some c.a.toRat),
@@ -37,5 +39,208 @@ theorem wktRaw_geog (c : Crs) (st : Style) (hk : c.kind = .geog) : wktRaw c st =
   unfold effGeogNode effGeogKids effDatumNode effDatumKids
   simp only [Function.comp, wOf, if_true, effTw_eq]
   rfl
+
+/-! ## the datum facts per kind of name -/
+
+def customAllNames : List String := customDatumNames.map (·.1) ++ customDatumNames.map (·.2) ++ ["Custom_Datum_1999", "D_Custom_1999"]
+
+theorem custom_notWgs : (customAllNames ++ ["North_American_Datum_1983", "D_North_American_1983"]).all
+    (fun n => decide (renameHead (toLower n.toList) ≠ s "wgs_1984")) = true := by decide +kernel
+theorem wgs_isWgs : ["WGS_1984", "D_WGS_1984"].all (fun n => decide (renameHead (toLower n.toList) = s "wgs_1984")) = true := by
+  decide +kernel
+
+theorem datumName_kind (c : Crs) (st : Style) :
+    (c.datum = .wgs84 → renameHead (toLower (wktDatumName c st).toList) = s "wgs_1984") ∧
+    (c.datum ≠ .wgs84 → renameHead (toLower (wktDatumName c st).toList) ≠ s "wgs_1984") := by
+  have h1 := custom_notWgs
+  have h2 := wgs_isWgs
+  rw [List.all_eq_true] at h1 h2
+  constructor
+  · intro hd
+    have : wktDatumName c st ∈ ["WGS_1984", "D_WGS_1984"] := by
+      unfold wktDatumName; rw [hd]; cases st.esri <;> simp
+    simpa using h2 _ this
+  · intro hd
+    have : wktDatumName c st ∈ customAllNames ++ ["North_American_Datum_1983", "D_North_American_1983"] := by
+      have hm := wktDatumName_mem c st
+      unfold wktDatumName allDatumNames at *
+      cases hdd : c.datum
+      · -- custom
+        simp only [hdd] at hm ⊢
+        unfold customAllNames
+        cases st.esri <;> simp only [List.mem_append, List.mem_map, List.mem_cons, List.mem_nil_iff, or_false] at hm ⊢
+        · by_cases h : c.dname < customDatumNames.length
+          · left; left; left
+            exact ⟨customDatumNames[c.dname], List.getElem_mem h, by simp [List.getD_eq_getElem?_getD, h]⟩
+          · left; right; left
+            simp [List.getD_eq_getElem?_getD, List.getElem?_eq_none (Nat.le_of_not_lt h)]
+        · by_cases h : c.dname < customDatumNames.length
+          · left; left; right
+            exact ⟨customDatumNames[c.dname], List.getElem_mem h, by simp [List.getD_eq_getElem?_getD, h]⟩
+          · left; right; right
+            simp [List.getD_eq_getElem?_getD, List.getElem?_eq_none (Nat.le_of_not_lt h)]
+      · exact absurd hdd hd
+      · cases st.esri <;> simp
+    simpa using h1 _ this
+
+/-- how the WKT datum of the description appears before `DeriveConstants` -/
+theorem wkt_datumSit (c : Crs) (st : Style) (hdw : datumWF c = true) (sr : SR XR)
+    (hcode : sr.datumCode = datumCodeOf (wktDatumName c st)) (hpar : sr.datumParams = dParams c []) : DatumSit c sr := by
+  have hfacts := datumName_facts c st
+  unfold datumNameCheck at hfacts
+  simp only [Bool.and_eq_true, decide_eq_true_eq, Bool.not_eq_true'] at hfacts
+  obtain ⟨⟨⟨⟨⟨⟨_, _⟩, _⟩, _⟩, hne⟩, hnone⟩, hlook⟩ := hfacts
+  obtain ⟨hw1, hw2⟩ := datumName_kind c st
+  cases hd : c.datum with
+  | custom =>
+    have hnw := hw2 (by rw [hd]; decide)
+    rw [if_neg hnw] at hlook
+    cases ht : c.towgs with
+    | none => unfold datumWF at hdw; rw [hd, ht] at hdw; simp at hdw
+    | some ds =>
+      refine DatumSit.shift ds hd ht ?_ ?_
+      · rw [hpar]; simp [dParams, hd, ht]
+      · intro _
+        rw [hcode]
+        simpa using hlook
+  | wgs84 =>
+    have hiw := hw1 hd
+    rw [if_pos hiw] at hlook
+    cases hl : List.lookup (String.ofList (datumCodeOf (wktDatumName c st))) datumTable with
+    | none => rw [hl] at hlook; simp at hlook
+    | some d =>
+      rw [hl] at hlook
+      refine DatumSit.namedTable (by rw [hd]; decide) d (by rw [hcode]; exact hne) (by rw [hcode]; exact hnone) (by rw [hcode]; exact hl) ?_
+      simpa using hlook
+  | nad83 =>
+    have hnw := hw2 (by rw [hd]; decide)
+    rw [if_neg hnw] at hlook
+    refine DatumSit.namedPlain (by rw [hd]; decide) ?_ (by rw [hcode]; exact hne) (by rw [hcode]; exact hnone) ?_
+    · rw [hpar]; simp [dParams, hd]
+    · rw [hcode]; simpa using hlook
+
+/-! ## CoreOK -/
+
+theorem unitDec_toMeter (c : Crs) (hus : c.unit ≠ .usFoot) : (wktUnitDec c).toRat = c.unit.toMeter := by
+  unfold wktUnitDec UnitK.toMeter
+  cases hu : c.unit
+  · decide +kernel
+  · decide +kernel
+  · rfl
+  · exact absurd hu hus
+
+theorem projOf_wkt (k : Kind) (e : Bool) (hk : k ≠ .geog) : projOf (wktProjName k e).toList = some (p4FuncName k) := by
+  cases k <;> cases e <;> first | exact absurd rfl hk | decide +kernel
+
+def longCond (n : Str) : Bool :=
+  n = s "Albers_Conic_Equal_Area" || n = s "Equidistant_Conic" || n = s "Lambert_Azimuthal_Equal_Area"
+
+theorem wktFinish_fields (x : SR XR) (hn : x.name ≠ s "Mercator_Auxiliary_Sphere") :
+    (wktFinish x).name = x.name ∧ (wktFinish x).lat1 = x.lat1 ∧ (wktFinish x).lat2 = x.lat2 ∧ (wktFinish x).latTS = x.latTS ∧
+    (wktFinish x).k0 = x.k0 ∧ (wktFinish x).a = x.a ∧ (wktFinish x).rf = x.rf ∧ (wktFinish x).b = x.b ∧ (wktFinish x).ra = x.ra ∧
+    (wktFinish x).sphere = x.sphere ∧ (wktFinish x).axis = x.axis ∧ (wktFinish x).fromGreenwich = x.fromGreenwich ∧
+    (wktFinish x).nadGrids = x.nadGrids ∧ (wktFinish x).datum = x.datum ∧ (wktFinish x).datumCode = x.datumCode ∧
+    (wktFinish x).datumParams = x.datumParams ∧ (wktFinish x).toMeter = x.toMeter ∧
+    (wktFinish x).x0 = Num.mul x.x0 x.toMeter ∧ (wktFinish x).y0 = Num.mul x.y0 x.toMeter ∧
+    (wktFinish x).lat0 = (if x.lat0.isNone then x.lat1 else x.lat0) ∧
+    (wktFinish x).long0 = (if x.long0.isNone && !x.longC.isNone && longCond x.name then x.longC else x.long0) := by
+  unfold wktFinish longCond
+  simp only [hn, decide_false, Bool.false_and, Bool.false_eq_true, if_false, Num.isNaN]
+  refine ⟨?_, ?_, ?_, ?_, ?_, ?_, ?_, ?_, ?_, ?_, ?_, ?_, ?_, ?_, ?_, ?_, ?_, ?_, ?_, ?_, ?_⟩ <;> (repeat' split) <;> first | rfl | simp_all
+
+attribute [local irreducible] ellpsOf datumCodeOf unitNameOf quoted in
+theorem wkt_coreOK (c : Crs) (st : Style) (hw : wellFormed c = true) : CoreOK c (wktFinish (wktRaw c st)) := by
+  obtain ⟨_, _, _, hus, _, hdw⟩ := wf_parts c hw
+  by_cases hk : c.kind = .geog
+  · -- a geographic system
+    have e := wktRaw_geog c st hk
+    have hfin : ∀ x : SR XR, x.name = s "longlat" → x.lat0 = none → x.lat1 = none → x.long0 = none → x.longC = none →
+        (wktFinish x).name = x.name ∧ (wktFinish x).lat0 = none ∧ (wktFinish x).lat1 = x.lat1 ∧ (wktFinish x).lat2 = x.lat2 ∧
+        (wktFinish x).latTS = x.latTS ∧ (wktFinish x).long0 = none ∧ (wktFinish x).k0 = x.k0 ∧ (wktFinish x).a = x.a ∧
+        (wktFinish x).rf = x.rf ∧ (wktFinish x).b = x.b ∧ (wktFinish x).ra = x.ra ∧ (wktFinish x).sphere = x.sphere ∧
+        (wktFinish x).axis = x.axis ∧ (wktFinish x).fromGreenwich = x.fromGreenwich ∧ (wktFinish x).nadGrids = x.nadGrids ∧
+        (wktFinish x).datum = x.datum ∧ (wktFinish x).datumCode = x.datumCode ∧ (wktFinish x).datumParams = x.datumParams := by
+      intro x h1 h2 h3 h4 h5
+      unfold wktFinish
+      have hn : ¬ (x.name = s "Mercator_Auxiliary_Sphere") := by rw [h1]; decide
+      simp [hn, h2, h3, h4, h5, Num.isNaN]
+    obtain ⟨f1, f2, f3, f4, f5, f6, f7, f8, f9, f10, f11, f12, f13, f14, f15, f16, f17, f18⟩ :=
+      hfin (wktRaw c st) (by rw [e]) (by rw [e]; rfl) (by rw [e]; rfl) (by rw [e]; rfl) (by rw [e]; rfl)
+    refine { proj := ?_, geo := ?_, lat0 := ?_, lat1 := ?_, lat2 := ?_, latTS := ?_, long0 := ?_, k0 := ?_, x0 := fun h => absurd hk h,
+             y0 := fun h => absurd hk h, toMeter := fun h => absurd hk h, a := ?_, rf := ?_, b := ?_, ra := ?_, sphere := ?_, axis := ?_,
+             fromGreenwich := ?_, nadGrids := ?_, datumNone := ?_, dat := ?_ }
+    · rw [f1, e, hk]; show projOf (s "longlat") = some (p4FuncName .geog); decide +kernel
+    · rw [f1, e]; exact ⟨fun _ => hk, fun _ => rfl⟩
+    · rw [f2]; simp [expected, hk]
+    · rw [f3, e]; simp [expected, hk]; rfl
+    · rw [f4, e]; simp [expected, hk]; rfl
+    · rw [f5, e]; rfl
+    · rw [f6]; simp [expected, hk]
+    · rw [f7, e]; simp [hk]; rfl
+    · rw [f8, e]
+    · rw [f9, e]
+    · rw [f10, e]; rfl
+    · rw [f11, e]; rfl
+    · rw [f12, e]; rfl
+    · rw [f13, e]; rfl
+    · rw [f14, e]; rfl
+    · rw [f15, e]; rfl
+    · rw [f16, e]; rfl
+    · exact wkt_datumSit c st hdw _ (by rw [f17, e]) (by rw [f18, e])
+  · -- a projected system
+    have e := wktRaw_proj c st hk
+    obtain ⟨hp1, hp2, hp3, hp4⟩ := projName_facts c st hk
+    have hfe := (wf_parts c hw).2.2.2.2.1 hk
+    obtain ⟨f1, f2, f3, f4, f5, f6, f7, f8, f9, f10, f11, f12, f13, f14, f15, f16, f17, f18, f19, f20, f21⟩ :=
+      wktFinish_fields (wktRaw c st) (by rw [e]; exact hp4)
+    have htm := unitDec_toMeter c hus
+    refine { proj := ?_, geo := ?_, lat0 := ?_, lat1 := ?_, lat2 := ?_, latTS := ?_, long0 := ?_, k0 := ?_, x0 := ?_, y0 := ?_,
+             toMeter := ?_, a := ?_, rf := ?_, b := ?_, ra := ?_, sphere := ?_, axis := ?_, fromGreenwich := ?_, nadGrids := ?_,
+             datumNone := ?_, dat := ?_ }
+    · rw [f1, e]; exact projOf_wkt c.kind st.esri hk
+    · rw [f1, e]; exact ⟨fun h => absurd h hp3, fun h => absurd h hk⟩
+    · rw [f20, e]
+      show (if (wLat0 c none).isNone then wLat1 c none else wLat0 c none) = (expected c).lat0
+      cases hkk : c.kind <;> simp [wLat0, wLat1, expected, hkk, degX]
+    · rw [f2, e]
+      show wLat1 c none = (expected c).lat1
+      cases hkk : c.kind <;> simp [wLat1, expected, hkk, degX]
+    · rw [f3, e]
+      show wLat2 c none = (expected c).lat2
+      cases hkk : c.kind <;> simp [wLat2, expected, hkk, degX]
+    · rw [f4, e]; rfl
+    · rw [f21, e]
+      show (if (wLong0 c st none).isNone && !(wLongC c st none).isNone && longCond (wktProjName c.kind st.esri).toList
+            then wLongC c st none else wLong0 c st none) = (expected c).long0
+      cases hkk : c.kind <;> cases he : st.esri <;> first
+        | exact absurd hkk hk
+        | (simp only [wLong0, wLongC, wktProjName, expected, hkk, he, degX]; first | rfl | decide +kernel | simp [longCond, s])
+    · rw [f5, e]
+      show wK0 c none = _
+      cases hkk : c.kind <;> simp [wK0, hkk]
+    · intro _
+      rw [f18, e]
+      show Num.mul (wX0 c none) (some (wktUnitDec c).toRat) = (expected c).x0
+      rw [htm]
+      cases hkk : c.kind <;> first | exact absurd hkk hk | simp [wX0, expected, hkk, Num.mul, XR.bin]
+    · intro _
+      rw [f19, e]
+      show Num.mul (wY0 c none) (some (wktUnitDec c).toRat) = (expected c).y0
+      rw [htm]
+      cases hkk : c.kind <;> first | exact absurd hkk hk | simp [wY0, expected, hkk, Num.mul, XR.bin]
+    · intro _
+      rw [f17, e]
+      show some (wktUnitDec c).toRat = (expected c).toMeter
+      rw [htm]; simp [expected, hk]
+    · rw [f6, e]
+    · rw [f7, e]
+    · rw [f8, e]; rfl
+    · rw [f9, e]; rfl
+    · rw [f10, e]; rfl
+    · rw [f11, e]; rfl
+    · rw [f12, e]; rfl
+    · rw [f13, e]; rfl
+    · rw [f14, e]; rfl
+    · exact wkt_datumSit c st hdw _ (by rw [f15, e]) (by rw [f16, e])
 
 end GeomV.C20
